@@ -36,7 +36,7 @@ def main(argv=None):
         return 0
     if args.replay:
         return replay(prop, args.replay)
-    return run(prop, args.tier, seed, args.shards, args.sub, not args.no_evidence)
+    return run(prop, args.tier, seed, args.shards, args.sub, not (args.no_evidence or os.environ.get("VERIF_NO_EVIDENCE")))
 
 
 def replay(prop, path):
